@@ -93,7 +93,7 @@ func (f *fprinter) attr(a Attr, level int) {
 	case "cssclass":
 		f.indent(level, "class={ boxed() }")
 	case "scriptcall":
-		f.indent(level, "onclick={ greet(\"x\") }")
+		f.indent(level, a.N, "={ greet(\"x\") }")
 	case "spread":
 		f.indent(level, "{ env.M(", num(a.M), ")... }")
 	case "cond":
